@@ -382,6 +382,10 @@ pub struct CompCase {
     /// number of 1-bits written before the component (the component then starts at a non-aligned offset)
     #[serde(default)]
     pub prefix_bits: usize,
+    /// the calling thread has just had a write of the same component FAIL half-way (a user sink that
+    /// reported an error); the serialisation under test follows on the same thread
+    #[serde(default)]
+    pub after_failed_write: bool,
 }
 
 fn with_prefix<S: BitSink>(s: &mut S, n: usize) -> Result<(), S::Error> {
@@ -401,11 +405,27 @@ fn run_comp_case(comp: &Comp, case: &CompCase, seam_ops: &mut u64) -> Option<Vio
             case: serde_json::to_value(case).unwrap(),
         })
     };
-    let reference = pan::catch(|| {
-        let mut s = ByteSink::new();
-        with_prefix(&mut s, case.prefix_bits).expect("HARNESS: prefix");
-        comp.write(&mut s).map(|()| (s.len(), s.into_inner())).map_err(|e| format!("{e}"))
+    // the reference is made on a fresh thread: it must not inherit anything from this thread's history
+    let reference = std::thread::scope(|sc| {
+        sc.spawn(|| {
+            pan::catch(|| {
+                let mut s = ByteSink::new();
+                with_prefix(&mut s, case.prefix_bits).expect("HARNESS: prefix");
+                comp.write(&mut s).map(|()| (s.len(), s.into_inner())).map_err(|e| format!("{e}"))
+            })
+        })
+        .join()
+        .expect("HARNESS: reference thread")
     });
+    if case.after_failed_write {
+        let n = {
+            let mut probe = ReqSink(Core::failing(None, false));
+            let _ = comp.write(&mut probe);
+            probe.0.ops
+        };
+        let mut failing = ReqSink(Core::failing(Some(n / 2), true));
+        let _ = pan::catch(|| comp.write(&mut failing).is_ok());
+    }
     let (nbits, bytes) = match reference {
         Ok(Ok(x)) => x,
         Ok(Err(e)) => return mk("reference_write_failed", String::new(), e, "ByteSink write returned an error".into()),
@@ -587,7 +607,16 @@ pub fn run(ctx: &crate::RunCtx) -> (Summary, Vec<Violation>) {
             corpus::kinds(&item, &mut sum.probes);
         }
         for (name, comp) in components(&item) {
-            for (sink, prefix_bits) in [("required", 0usize), ("overridden", 0), ("u64", 0), ("required", 3), ("overridden", 5), ("u64", 61)] {
+            for (sink, prefix_bits, after_failed_write) in [
+                ("required", 0usize, false),
+                ("overridden", 0, false),
+                ("u64", 0, false),
+                ("required", 3, false),
+                ("overridden", 5, false),
+                ("u64", 61, false),
+                ("required", 0, true),
+                ("u64", 0, true),
+            ] {
                 // whole streams start with the marker and are only meaningful from offset 0
                 if prefix_bits > 0 && name.starts_with("stream") {
                     continue;
@@ -603,10 +632,11 @@ pub fn run(ctx: &crate::RunCtx) -> (Summary, Vec<Violation>) {
                     component: name.clone(),
                     sink: sink.into(),
                     prefix_bits,
+                    after_failed_write,
                 };
                 sum.cases += 1;
                 sum.distinct_nontrivial += 1;
-                *sum.ops_hist.entry(format!("C_{sink}{}", if prefix_bits > 0 { "_unaligned_start" } else { "" })).or_default() += 1;
+                *sum.ops_hist.entry(format!("C_{sink}{}", if prefix_bits > 0 { "_unaligned_start" } else if after_failed_write { "_after_failed_write" } else { "" })).or_default() += 1;
                 let ops0 = seam_ops;
                 let verdict = run_comp_case(&comp, &case, &mut seam_ops);
                 sum.note(n_case, (seam_ops - ops0) ^ verdict.as_ref().map_or(0, |v| crate::rng::fnv(&v.class)));
